@@ -28,7 +28,9 @@ REQUIRED = ["exec_split", "partition_independent", "partition_independent_footpr
             "badIgnoreStart_refuted", "badScratch_refuted",
             # audit W5 / W6: the success path of what the driver executes; accessors are injective
             "applyVectorized_ok", "applyMaskable_ok", "Access.reindex_loc", "applyMaskable_ok_cell",
-            "loc_injective_direct", "loc_injective_masked", "noCrossAlias_fresh_ret", "noCrossAlias_fresh_direct", "noCrossAlias_inplace"]
+            "loc_injective_direct", "loc_injective_masked", "noCrossAlias_fresh_ret", "noCrossAlias_fresh_direct", "noCrossAlias_inplace",
+            # helpers the statements above lean on (audit r2 N7)
+            "loc_injective_of_wellFormed", "dispatch_eq_runRanges", "effectiveScript_ok", "boxExtendBy_eq", "handTask_compositional"]
 # audit W7: the reduction laws for the GENERATED Box::extendBy (Gen/C13Box.lean, regenerated from ImathBox.h on every run)
 REQUIRED_BOX = ["gen_box%d_%s" % (d, n) for d in (2, 3) for n in ("extendByBox_eq", "extendByPoint_eq", "extendBy_joinLaws",
                 "extendByPoint_eq_box", "extendBy_partition_independent", "extendBy_cover_independent")]
@@ -50,6 +52,10 @@ for _k in ("V3c.cross#1", "V3c.dot#1", "V4c.dot#1"):
     ALLOW_UNREACHED[_k] = "takes FixedArray<Vec3/Vec4<unsigned char>>: no python class (V3cArray / V4cArray) is registered"
 for _n in ("__div__#1", "__idiv__#1", "__imul__#1", "__itruediv__#1", "__mul__#1", "__rmul__#1", "__truediv__#1"):
     ALLOW_UNREACHED["Color4cArray2D." + _n] = "takes FixedArray2D<unsigned char>: no python class is registered"
+# component `add_property` arrays that cannot be used as strided sources: the getter returns an array type without a python class
+# (open findings array-raises:no-python-class:*); every OTHER component property must be a carrier of the strided mode
+PROPS_NOT_CARRIERS = set(["V2i64Array.x", "V2i64Array.y", "V3i64Array.x", "V3i64Array.y", "V3i64Array.z",
+                          "V4i64Array.x", "V4i64Array.y", "V4i64Array.z", "V4i64Array.w"] + ["Color4cArray2D." + c for c in "rgba"])
 # rule-based skips (not names): C19's protocol methods and constructors that take no array
 RULE_SKIPS = ("indexing/pickling protocol (property C19)", "indexing/construction protocol (property C19)",
               "variable-length array protocol (property C19)", "buffer protocol (property C19)", "constructor without array argument", "static/no self")
@@ -90,6 +96,46 @@ SCALAR_CAUSES = [
 ]
 
 
+def _through_double(a):
+    """what a 64-bit component becomes when a python int is extracted as double and cast back (the recorded finding);
+    casts of values >= 2^63 are undefined in C++: x86 yields INT64_MIN"""
+    f = float(a)
+    return int(f) if -2.0 ** 63 <= f < 2.0 ** 63 else -2 ** 63
+
+
+def _f32_of_token(t):
+    import struct
+    return struct.unpack("<f", struct.pack("<I", int(t, 16)))[0]
+
+
+def finding_shape(cause, m):
+    """Does this single mismatching CASE have the SHAPE the open finding `cause` describes?  Anything else in the same table
+    entry (a swapped component, a wrong value on ordinary arguments, another exception) is a fresh violation."""
+    what, py, cxx, toks = m["what"], m.get("python"), m.get("cxx"), m.get("arg_tokens") or []
+    try:
+        if cause == "scalar-vs-cxx:Vi64-constructor-through-double":
+            args = [int(t) for t in toks]
+            if not any(abs(a) > 2 ** 53 for a in args):
+                return False
+            if what.startswith("the python binding raises (OverflowError"):
+                return any(not (-2.0 ** 63 < float(a) < 2.0 ** 63) for a in args)      # numeric_cast of the rounded double (|x| >= 2^63)
+            if what != "results differ bitwise" or not isinstance(py, list) or not isinstance(cxx, list):
+                return False
+            n = len(cxx)
+            want = args if len(args) == n else args * n          # (l,l,l) component-wise; (l) broadcast
+            return [int(x) for x in cxx] == want and [int(x) for x in py] == [_through_double(a) for a in want]
+        if cause == "scalar-vs-cxx:Vs-Vi64-inplace-division-rejects-own-type":
+            return what.startswith("the python binding raises (ValueError") and "division expects an argument" in what
+        if cause == "scalar-vs-cxx:Vs-Vi64-equalWithError-rejects-own-type":
+            return what.startswith("the python binding raises (ValueError: invalid parameters passed to equalWith")
+        if cause == "scalar-vs-cxx:V2-constructor-range-check":
+            big = any(not (abs(_f32_of_token(t)) <= 3.4028234663852886e38) for t in toks)      # inf (or nan) after conversion to float
+            return what.startswith("the python binding raises (OverflowError: bad numeric conversion") and big
+    except Exception:
+        return False
+    return False
+
+
 def cause_key(cause, member):
     """the cause's key for a listed member, a key of its own for anything else"""
     return cause if member in CAUSE_MEMBERS.get(cause, ()) else "%s:new:%s" % (cause, member)
@@ -110,6 +156,24 @@ OBL = {
     "crash": "no crash or hang that the scalar binding does not reproduce",
     "scalar-vs-cxx": "scalar-vs-cxx: every bound scalar binding of the table returns bit for bit what the C++ library returns",
 }
+# scalar spellings Part 1 uses as element-wise references although they are NOT in the scalar-vs-C++ table (audit r2 N2):
+# only functions DEFINED by PyImath itself (no C++ library counterpart to compare with)
+REF_OUTSIDE_TABLE = {
+    "imath.bias(d,d)": "bias_op is defined in PyImathFunOperators.h (pow(x, log(b)/log(0.5))): no Imath library function",
+    "imath.gain(d,d)": "gain_op is defined in PyImathFunOperators.h on top of bias_op: no Imath library function",
+}
+
+
+def table_key_of_ref(r):
+    """reference spelling as emitted by Part 1 -> key of the scalar-vs-C++ table"""
+    m = re.match(r"^FrustumTest([fd])\.(isVisible|completelyContains)\(FrustumTest[fd],(\w+)\)$", r)
+    if m:       # the table entry takes the constructor arguments; float points are converted to the object's precision
+        a = m.group(3)
+        a = a[:-1] + m.group(1) if a[:-1] in ("V3", "Box3") else a
+        return "FrustumTest%s.%s(Frustum%s,M44%s,%s)" % (m.group(1), m.group(2), m.group(1), m.group(1), a)
+    return r
+
+
 # table entries of c20_scalar_ref.cpp for which the python class has no such method / overload (python falls back to
 # another spelling or the operation does not exist for that type): a binding that DISAPPEARS is not on this list and fails
 UNBOUND_OK = set(
@@ -234,7 +298,9 @@ def run_drd(chk, shim, lst, keys, nproc):
         logf = os.path.join(WD, "drd%d.log" % i)
         json.dump({"shim": shim, "seed": chk.seed, "keys": ks, "cxx2py": lst["cxx2py"], "entries": [byk[k] for k in ks]}, open(op, "w"))
         try:
-            p = subprocess.run(["valgrind", "--tool=drd", "--num-callers=16", "--log-file=" + logf, pyimath.PYTHON, HARNESS, "drd", op],
+            # --check-stack-var=yes: the Task objects live on the caller's stack; a scratch MEMBER shared by the sub-ranges is a
+            # stack variable, which drd ignores by default (the positive control is exactly that)
+            p = subprocess.run(["valgrind", "--tool=drd", "--check-stack-var=yes", "--num-callers=24", "--log-file=" + logf, pyimath.PYTHON, HARNESS, "drd", op],
                                env=pyimath.env({"PYTHONMALLOC": "malloc", "POOLSHIM_NO_BARRIER": "1"}), stdout=subprocess.PIPE, stderr=subprocess.PIPE,
                                timeout=3000, text=True, errors="replace")
             return p.returncode, p.stdout, p.stderr, logf
@@ -242,9 +308,10 @@ def run_drd(chk, shim, lst, keys, nproc):
             return 124, "", "timeout", logf
     with ThreadPoolExecutor(max_workers=nsh) as ex:
         res = list(ex.map(one, range(nsh)))
-    ran, disp, blocks, aborted = 0, 0, [], []
+    ran, disp, blocks, aborted, ctl_runs = 0, 0, [], [], 0
     for rc, so, se, logf in res:
         ran += se.count("DRD-END")
+        ctl_runs += se.count("DRD-CONTROL dispatches=1")
         m = re.search(r'"drd_dispatching_entry_points": (\d+)', so)
         disp += int(m.group(1)) if m else 0
         if rc != 0 or not m:
@@ -256,12 +323,22 @@ def run_drd(chk, shim, lst, keys, nproc):
         for b in re.split(r"\n==\d+== \n", txt):
             if "Conflicting" in b:
                 blocks.append(re.sub(r"==\d+== ", "", b)[:1500])
-    inexec = [b for b in blocks if "execute" in b]
+    # the positive control (a deliberately racy Task in the shim) must be reported in every shard; every OTHER report whose
+    # stack touches the module (any PyImath:: / Imath_ frame, not only frames named execute) counts
+    control = [b for b in blocks if "RacyControl" in b]
+    inexec = [b for b in blocks if "RacyControl" not in b and ("PyImath::" in b or "Imath_" in b or "execute" in b)]
     chk.extra["drd"] = {"entry_points_run_under_drd": ran, "of_which_dispatched_to_8_threads": disp, "conflicting_access_reports": len(blocks),
-                        "inside_execute": len(inexec), "wall_s": round(time.time() - t0, 1), "aborted_shards": aborted[:3],
-                        "first_reports_outside_execute": blocks[:2] if not inexec else None}
+                        "in_module_code(any PyImath:: / Imath_ frame)": len(inexec), "wall_s": round(time.time() - t0, 1), "aborted_shards": aborted[:3],
+                        "positive_control(racy Task of the shim)": {"shards": nsh, "control_dispatched": ctl_runs, "reports_naming_RacyControl": len(control)},
+                        "reports_elsewhere(python / libc internals)": len(blocks) - len(inexec) - len(control)}
+    okc = ctl_runs == nsh and len(control) >= nsh
+    chk.oblige("drd: positive control — the deliberately racy Task of the shim is reported by the detector in every shard", "correspondence", okc,
+               None if okc else {"control_dispatched": ctl_runs, "reports": len(control), "shards": nsh})
+    if not okc:
+        chk.fail("drd: positive control", "drd:control-not-reported", "valgrind --tool=drd did not report the deliberately racy control Task: the pass "
+                 "cannot see races in execute()", {"shards": nsh, "control_dispatched": ctl_runs, "reports": len(control)}, False)
     okd = not inexec and not aborted and disp > 0
-    chk.oblige("drd: %d entry points, 8 std::threads each, under valgrind --tool=drd: no conflicting access inside *::execute" % ran,
+    chk.oblige("drd: %d entry points, 8 std::threads each, under valgrind --tool=drd: no conflicting access in module code" % ran,
                "correspondence", okd, None if okd else {"reports": len(inexec), "aborted": aborted[:2]})
     seen = set()
     for b in inexec:
@@ -273,6 +350,22 @@ def run_drd(chk, shim, lst, keys, nproc):
         chk.fail("drd", "drd:race-in:" + fn, "valgrind --tool=drd reports conflicting accesses by two worker threads inside " + fn, {"report": b}, True)
     if aborted:
         chk.fail("drd", "drd:run", "the race-detector pass did not complete", {"shards": aborted[:3]}, False)
+    # keep the result of the pass with the hash of the sources it ran on: quick-tier evidence quotes it (audit r2 N6)
+    try:
+        json.dump({"when": time.strftime("%Y-%m-%d %H:%M:%S"), "seed": chk.seed, "pyimath_source_hash": pyimath_source_hash(), "passed": bool(okd and okc),
+                   "result": chk.extra["drd"]}, open(os.path.join(lib.VERIF, "evidence", "C20.drd.json"), "w"), indent=1)
+    except OSError:
+        pass
+
+
+def pyimath_source_hash():
+    import hashlib
+    h = hashlib.sha256()
+    for f in sorted(glob.glob(os.path.join(lib.REPO, "src", "python", "PyImath", "*"))) + [os.path.join(lib.VERIF, "harness", "py", "poolshim.cpp")]:
+        if os.path.isfile(f):
+            h.update(os.path.basename(f).encode())
+            h.update(open(f, "rb").read())
+    return h.hexdigest()[:16]
 
 
 def run(chk):
@@ -282,7 +375,7 @@ def run(chk):
                    "minus, 3-argument clamp, Box.extendBy through the GENERATED extendBy of Gen/C13Box.lean)",
                    "translator harness/sym (Gen/C13Box.lean regenerated from ImathBox.h on every run, TV as in C13)",
                    "harness/py/poolshim.cpp (scripted WorkerPool, public API only), harness/py/c20_harness.py, c20_extra.py, ctypes",
-                   "harness/py/c20_scalar_ref.cpp: the table (python class, method, argument types) -> C++ library expression (1,318 "
+                   "harness/py/c20_scalar_ref.cpp: the table (python class, method, argument types) -> C++ library expression (1,560 "
                    "entries) compiled against the current headers; it states which library function each scalar binding stands for",
                    "cmake/ninja/g++ building the real module from the current tree; CPython 3.11 + Boost.Python 1.83; libm (powf/pow as "
                    "the reference of the array `**` operators)"]
@@ -419,6 +512,14 @@ def run(chk):
                  "named allow-list: " + "; ".join((unseen + unlisted)[:6]), {"not_classified": unseen[:40], "skipped": unlisted[:40]}, False)
     if stale:
         chk.fail("enumerate", "enumerate:stale-allow-list", "allow-list names exports that are no longer skipped (remove them): " + ", ".join(stale[:8]), {"stale": stale}, False)
+    props, carriers = set(lst.get("component_properties", [])), set(lst.get("strided_carriers", []))
+    notc = sorted(props - carriers - PROPS_NOT_CARRIERS)
+    okp = not notc and len(carriers) >= 80
+    chk.oblige("enumerate: every component add_property of an array class (%d) is a carrier of the strided presentation, or one of %d named "
+               "properties whose array type has no python class" % (len(props), len(PROPS_NOT_CARRIERS)), "correspondence", okp, notc[:10] or None)
+    if not okp:
+        chk.fail("enumerate: every component add_property", "enumerate:component-property-not-a-strided-source", "component array properties never used as strided "
+                 "argument sources: " + ", ".join(notc[:10]), {"properties": notc}, False)
     if len(todo) < 1500:
         chk.fail("enumerate", "enumerate:too-few", "introspection found only %d exercisable vectorised overloads" % len(todo), {}, False)
 
@@ -458,6 +559,13 @@ def run(chk):
 
     if chk.thorough:
         run_drd(chk, shim, lst, core + always, nproc)
+    else:
+        try:
+            last = json.load(open(os.path.join(lib.VERIF, "evidence", "C20.drd.json")))
+            last["same_PyImath_sources_and_shim_as_this_run"] = last.get("pyimath_source_hash") == pyimath_source_hash()
+            chk.extra["drd(last thorough run; not re-run in the quick tier)"] = last
+        except (OSError, ValueError):
+            chk.extra["drd(last thorough run; not re-run in the quick tier)"] = "no stored result (evidence/C20.drd.json)"
 
     # ---- part 2: 2-D arrays, matrices, string arrays, variable-array constructors, samplers (all of them, every tier) ----
     t2 = time.time()
@@ -567,6 +675,16 @@ def run(chk):
         "partitions_with_reused_worker_ids": sum(e.get("tid_reuse_partitions", 0) for e in done),
         "entry_points_rerun_in_safe_mode_after_a_crash_the_scalar_binding_reproduces": sorted(safe_keys),
     }
+    used_src = set(x for s_ in stats for x in s_.get("strided_sources", []))
+    miss_src = sorted(carriers - used_src)
+    chk.extra["strided_sources"] = {"carriers(component properties usable as argument sources)": len(carriers), "used_in_this_run": len(used_src & carriers),
+                                    "not_used_in_this_run": miss_src[:40]}
+    oks = (not miss_src) if chk.thorough else (len(used_src & carriers) * 10 >= len(carriers) * 6)
+    chk.oblige("strided sources: %s" % ("every carrier component property was used as a strided argument at least once" if chk.thorough else
+                                       "at least 60 % of the carrier component properties were used as strided arguments (all of them in thorough)"),
+               "correspondence", oks, miss_src[:20] if not oks else None)
+    if not oks:
+        chk.fail("strided sources", "strided-sources:not-reached", "component properties not used as strided argument sources: " + ", ".join(miss_src[:12]), {"missing": miss_src}, False)
     chk.extra["serial_entry_points_sample"] = serial[:25]
     for e in sorted(done, key=lambda e: -e["partitions"])[:4]:
         chk.sample({"entry": e["key"], "signature": e["sig"][:140], "partitions": e["partitions"], "dispatches": e["dispatches"],
@@ -667,6 +785,16 @@ def run(chk):
     for k in allraise[:40]:
         chk.fail("scalar:no-reference", "no-scalar-reference:" + base_name(k), "the scalar binding raises for EVERY element of %s (%s): nothing was compared"
                  % (k, eps[k].get("scalar_raise_example")), {"entry": k, "signature": eps[k]["sig"]}, True)
+    # audit r2 N3: elements on which the scalar BINDING raises by design (zero float divisor, singular matrix) while the array
+    # returns are compared with the C++ library's non-throwing result; none may be left uncompared
+    unres = {e["key"]: (e["scalar_raised_elements"], e.get("scalar_raise_example")) for e in done if e.get("scalar_raised_elements")}
+    nres = sum(e.get("scalar_raise_resolved", 0) for e in done)
+    chk.oblige("scalar raises / array returns: every such element is compared with the C++ library's non-throwing result (IEEE component-wise "
+               "division; inverse(singExc=false)) — %d elements, none left uncompared" % nres, "correspondence", not unres,
+               dict(list(unres.items())[:10]) or None)
+    for k, (n_, ex_) in sorted(unres.items())[:40]:
+        chk.fail("scalar raises / array returns", "scalar-raises-array-returns:" + base_name(k), "for %d elements of %s the scalar binding raises (%s), the array "
+                 "call returns, and no non-throwing reference is defined: those elements were compared with nothing" % (n_, k, ex_), {"entry": k}, True)
     tol = {}
     for e in done:
         if e.get("tolerance_listed"):
@@ -680,7 +808,8 @@ def run(chk):
                                        "elements": sum(e["scalar_checked"] for e in done if not e.get("tolerance_listed")),
                                        "bit_identical": sum(e["scalar_exact"] for e in done if not e.get("tolerance_listed")),
                                        "of_which_nan_payload_or_sign_only": sum(e.get("scalar_nan_bits_only", 0) for e in done),
-                                       "elements_for_which_the_scalar_binding_raises(array returns)": sum(e.get("scalar_raised_elements", 0) for e in done),
+                                       "elements_where_the_scalar_binding_raises_and_the_array_returns(compared with the non-throwing C++ result)": nres,
+                                       "of_those_left_uncompared": sum(e.get("scalar_raised_elements", 0) for e in done),
                                        "entry_points_scalar_checked_on_the_edge_dataset": sum(1 for e in done if "edge" in (e.get("scalar_datasets") or []))}
 
     # ---- scalar bindings == C++ library ---------------------------------------------------------------------
@@ -697,12 +826,36 @@ def run(chk):
         chk.count(scal["cases"], scal["cases"])
         chk.oblige(OBL["scalar-vs-cxx"] + " (%d entries, %d cases; raise must match throw)" % (len(scal["per_entry"]), scal["cases"]), "correspondence",
                    not mm and scal["ref_lines"] == scal["cases"] and scal["cases"] > 10000, {"mismatching": list(mm)[:12]} if mm else None)
+        never_un = [k for k in never if k not in mm]
+        chk.oblige("scalar-vs-cxx: every bound table entry produced at least one compared case (or is a reported mismatch)", "correspondence",
+                   not never_un, never_un[:12] or None)
+        for k in never_un[:20]:
+            chk.fail("scalar-vs-cxx: every bound table entry produced", "scalar-vs-cxx:never-compared:" + k, "table entry %s is bound but no case was compared" % k, {}, False)
         chk.oblige("scalar-vs-cxx: no scalar binding of the table has disappeared (unbound entries are a subset of the named list of %d)" % len(UNBOUND_OK),
                    "correspondence", not gone, gone[:12] or None)
+        # a mismatching CASE is attributed to an open finding only if (1) its table entry is a listed member of the cause and
+        # (2) the case has the recorded SHAPE (finding_shape): everything else keeps a key of its own
         bycause = collections.OrderedDict()
+        shaped, unshaped = 0, 0
         for k, ms in mm.items():
-            ck = next((cause_key(c, k) for rx, c in SCALAR_CAUSES if re.match(rx, k)), "scalar-vs-cxx:" + k)
-            bycause.setdefault(ck, []).append((k, ms))
+            cause = next((c for rx, c in SCALAR_CAUSES if re.match(rx, k)), None)
+            parts = collections.OrderedDict()
+            for m in ms:
+                if cause is None:
+                    ck = "scalar-vs-cxx:" + k
+                elif cause_key(cause, k) != cause:
+                    ck = cause_key(cause, k)
+                elif finding_shape(cause, m):
+                    ck = cause
+                    shaped += 1
+                else:
+                    ck = "scalar-vs-cxx:%s:not-the-recorded-deviation" % k
+                    unshaped += 1
+                parts.setdefault(ck, []).append(m)
+            for ck, pm in parts.items():
+                bycause.setdefault(ck, []).append((k, pm))
+        chk.extra["scalar_vs_cxx"]["mismatching_cases_with_the_shape_of_an_open_finding"] = shaped
+        chk.extra["scalar_vs_cxx"]["mismatching_cases_in_those_entries_with_ANOTHER_shape"] = unshaped
         for ck, items in bycause.items():
             k, ms = items[0]
             m = ms[0]
@@ -714,6 +867,23 @@ def run(chk):
         if scal["ref_lines"] != scal["cases"] or scal["cases"] <= 10000:
             chk.fail("scalar-vs-cxx", "scalar-vs-cxx:run", "the reference binary answered %d of %d cases" % (scal["ref_lines"], scal["cases"]), {}, False)
         chk.sample({"scalar_vs_cxx_entry": "V3f.cross(V3f,V3f)", **scal["per_entry"].get("V3f.cross(V3f,V3f)", {})})
+        # audit r2 N2: Part 1 certifies "array == scalar spelling", Part 3 certifies "tabled scalar spelling == C++": every
+        # spelling Part 1 actually used must be a table entry that was compared (or a PyImath-defined function, named)
+        used = collections.Counter()
+        for e in done:
+            for r in e.get("refs_used") or []:
+                used[table_key_of_ref(r)] += 1
+        compared = set(k for k, v in scal["per_entry"].items() if v["compared"] > 0 or v["raise_both"] > 0)
+        outside = sorted(k for k in used if k not in compared and k not in REF_OUTSIDE_TABLE)
+        chk.extra["scalar_reference_spellings"] = {"distinct_spellings_used_by_part_1": len(used), "of_which_compared_with_C++_in_part_3": sum(1 for k in used if k in compared),
+                                                   "PyImath_defined(named, no library counterpart)": {k: REF_OUTSIDE_TABLE[k] for k in used if k in REF_OUTSIDE_TABLE}}
+        chk.oblige("scalar-reference ⊆ scalar-vs-cxx table: every scalar spelling Part 1 used as an element-wise reference (%d distinct) was compared "
+                   "with the C++ library in Part 3, or is one of %d named PyImath-defined functions" % (len(used), len(REF_OUTSIDE_TABLE)),
+                   "correspondence", not outside and len(used) > 100, outside[:15] or None)
+        for k in outside[:40]:
+            chk.fail("scalar-reference ⊆ scalar-vs-cxx table", "scalar-reference-outside-table:" + k, "Part 1 compares array results with the scalar spelling %s, "
+                     "which the scalar-vs-C++ table does not cover: a defect shared by that scalar binding and the array form would be invisible" % k,
+                     {"spelling": k, "used_by_entry_points": used[k]}, False)
 
     # model tie
     okm = rcm == 0 and model is not None and model["disagree"] == 0 and model["cases"] > 500
